@@ -478,9 +478,14 @@ def objective(out, i, M, recipe, y, kind, policy, MLL=None):
             terms = -0.5 * ((yb - m) ** 2 / var + var.log() + math.log(2 * math.pi))
             refs.append((terms, o))
     if kind == "mll":
-        # the model zoo registers no priors and no added loss terms, so the MLL is log N(y_o) / N and the deletion
-        # answer is log N(y_o) / |o|: "rescaled by the count of observed values"
+        # no added loss terms in this zoo: the MLL is [log N(y_o) + log-priors] / N and the deletion answer is the same
+        # bracket / |o|: "rescaled by the count of observed values"
         want = torch.stack([lp for lp, _ in refs]).reshape(-1)
+        # registered priors enter the exact MLL as additional terms (the recipes may carry priors)
+        with torch.no_grad():
+            for _, pmod, prior, closure, _ in M.named_priors():
+                lp = prior.log_prob(closure(pmod))
+                want = want + lp.reshape(*lp.shape[: max(val.dim(), 0)], -1).sum(-1).reshape(-1) if val.dim() else want + lp.sum()
         counts = torch.tensor([float(c) for _, c in refs], dtype=want.dtype)
         ok, diff, scale = compare.tensor_diff(val.reshape(-1) * N, want)
         if not ok or not diff <= TOL * scale:
